@@ -30,7 +30,7 @@ func c07roots(in *cons.Inst, upTo idx.Frame) string {
 
 func runC07(c *ev.Ctx) {
 	c.Rule = "valid multi-epoch streams (generator of C01: forks <1/3, lag, sleeper regime, seals). Two instances with the default-size forkless-cause cache process the same stream; the dirty one additionally gets, at seeded points, bursts of 1..40 Builds (self-parent only, parent subsets, full candidate, other creators' candidates; one burst of >=256 per run) and failing Process calls of clones with fresh IDs and a wrong claimed frame (0, too high by 1/2/100, below the self-parent's frame) - preferably clones of events that would have been roots - and resubmissions of recently ACCEPTED events under their own ID with claimed frame 0 or far too high. " +
-		"Oracle: every later valid event gets the same Process result on both; candidates built on BOTH instances at common points get the same frame; newly emitted blocks are identical after every event; GetFrameRoots(f) is identical (as a set) for all frames after every 10th event and at the end and never contains a rejected event; epochs, validators and decided frames agree. " +
+		"Now and then the dirty side's consensus object is re-created over its own index object (fresh Build counter). Oracle: every later valid event gets the same Process result on both; candidates built on BOTH instances at common points get the same frame; newly emitted blocks are identical after every event; GetFrameRoots(f) is identical (as a set) for all frames after every 10th event and at the end and never contains a rejected event; epochs, validators and decided frames agree. " +
 		"non-trivial = distinct (run) with >=1 rejected root candidate and >=1 block decided afterwards"
 	c.Assumptions = []string{"the application does not store rejected events (the harness removes them from its event source)", "cheaters < 1/3"}
 	nR := c.Pick(150, 2500)
@@ -133,6 +133,17 @@ func runC07(c *ev.Ctx) {
 						return
 					}
 					builds++
+				}
+				// ---- the consensus object of the dirty side is re-created over the same index object (the Build counter starts
+				// again, so later candidates get the temporary IDs of the never-submitted ones above)
+				if builds > 0 && r.Intn(12) == 0 {
+					if p, _ := ev.Try(func() { dirty = dirty.RestartKeepIndex() }); p != nil {
+						m := desc()
+						m["panic"] = fmt.Sprint(p)
+						c.Violation("restart-keeping-the-index-fails", m)
+						return
+					}
+					c.Count("dirty_side_recreated_over_the_same_index", 1)
 				}
 				// ---- dirt: failing Process calls
 				if r.Intn(5) == 0 {
